@@ -198,6 +198,13 @@ Theorem listed_anywhere_is_listed_or_marked : forall files t id,
 Proof. exact listed_anywhere_split. Qed.
 Print Assumptions listed_anywhere_is_listed_or_marked.
 
+(* The index `check` builds for itself (check_packs: IndexType and sections regenerated from
+   commands/check.rs) IS the Full index of GlobalIndex::new: every theorem above applies to it. *)
+Theorem check_index_is_full_global_index : forall sort_e sort_i files,
+  check_index_of_with sort_e sort_i files = index_of_with sort_e sort_i Full files.
+Proof. exact (fun _ _ _ => eq_refl). Qed.
+Print Assumptions check_index_is_full_global_index.
+
 (* GlobalIndex level: blob_from_backend reads exactly one listed location — the partial read goes
    to the listed pack, with cacheable = (type is tree), at the listed offset and length, and the
    listed uncompressed length is what the decoder gets; `None` (the "not found in index" error)
